@@ -1409,7 +1409,7 @@ func (x *c05Explorer) bfs(depth int, item *int) {
 }
 
 func TestVerifC05(t *testing.T) {
-	r := eng.Start("C05", "model_checking", 300*time.Second, 15*time.Minute)
+	r := eng.Start("C05", "model_checking", 400*time.Second, 15*time.Minute)
 	r.Assume("operations respect the API preconditions P1-P4 listed at c05World.enabled (statuses change only on linked tasks; a change marked ready is not made unready; Change.SetStatus only on task-less changes; acyclic same-change wait edges; no Prune while an edge touches an unlinked task)",
 		"expired notices/warnings (created 8/29 days in the past) are outside the statement and not compared; each is created at most once per path",
 		"documented exception: IsReady() of a task-less change whose status was never set is not compared",
@@ -1419,12 +1419,7 @@ func TestVerifC05(t *testing.T) {
 	timeNow = func() time.Time { return c05Clock }
 	defer func() { timeNow = time.Now }()
 	// the exploration is single-threaded per process (process-global mocked clock) and allocates short-lived garbage only
-	if v := os.Getenv("VERIF_C05_GC"); v != "" {
-		n, _ := strconv.Atoi(v)
-		debug.SetGCPercent(n)
-	} else {
-		debug.SetGCPercent(400)
-	}
+	debug.SetGCPercent(400)
 	if os.Getenv("VERIF_SHARD") != "" {
 		runtime.GOMAXPROCS(2)
 	}
@@ -1471,9 +1466,9 @@ func TestVerifC05(t *testing.T) {
 		r.Finish("replay")
 	}
 
-	// depth below each root: the empty root deepest; roots 1 and 2 (unready two-task change: ~60 enabled operations) one level
-	// less than the other structural roots in the quick tier
-	depths := []int{4, 2, 2, 3, 3, 3, 3, 3}
+	// depth below each root: the empty root deepest; roots 1, 2 and 5 (unready change, 55-65 enabled operations) one level less
+	// than the other structural roots in the quick tier
+	depths := []int{4, 2, 2, 3, 3, 2, 3, 3}
 	if r.Thorough() {
 		depths = []int{5, 4, 4, 4, 4, 4, 4, 4}
 	}
